@@ -12,6 +12,7 @@ ArgSpec:       {"name", "decl": "param"|"meta"|"option"|"constant"|"pathgen"|"fa
 Ty:            "int"|"float"|"str"|"bool"|"path"|{"enum": name}|{"cfg": name}|{"list": Ty}|{"dict": Ty}
 Val (spec):    None | bool | int | {"f": float-hex} | str | {"e": [enum, member]} | {"p": str}
                | {"l": [Val]} | {"d": [[key, Val]]} | {"r": node index}
+               | {"c": {"cls": name, "kw": [[name, Val]]}}   (a configuration literal `Cls(k=v, …)`: only inside declared defaults)
 Graph spec:    {"nodes": [{"cls", "values": [[name, Val]] (keyword order), "meta": None|bool,
                 "pre": [idx], "init": [idx], "task": idx|None}]}
 """
@@ -100,10 +101,72 @@ def gen_plain_default(rng, ty, lib):
     return gen_scalar(rng, ty, lib)
 
 
+def gen_cfg_literal(rng, classes, enums, cname, depth=0):
+    """a configuration literal of class `cname` for a declared default (`x: Param[C] = C(a=1)`), or None when the class
+    cannot be built from literals (a required configuration-typed parameter too deep, a forward reference, a task)"""
+    c = next(x for x in classes if x["name"] == cname)
+    if c["kind"] != "config" or c.get("deprecated"):
+        return None
+    args, p = [], c
+    chain = []
+    while p:
+        chain.append(p)
+        p = next((x for x in classes if x["name"] == p["parent"]), None)
+    for p in reversed(chain):
+        args += p["args"]
+    kw = []
+    for a in args:
+        if a["decl"] in ("constant", "pathgen", "factory"):
+            continue
+        ty = a["ty"]
+        required = not a["optional"] and "default" not in a
+        if not required and rng.random() < 0.5:
+            continue
+        if ty == "path":
+            v = {"p": "lit.txt"}
+        elif isinstance(ty, dict) and "cfg" in ty:
+            v = None if (depth >= 1 or ty.get("fwd")) else gen_cfg_literal(rng, classes, enums, ty["cfg"], depth + 1)
+            if v is None:
+                if required:
+                    return None
+                continue
+        elif isinstance(ty, dict) and ("list" in ty or "dict" in ty):
+            v = gen_plain_default(rng, ty, {"enums": enums})
+        else:
+            v = gen_scalar(rng, ty, {"enums": enums})
+        kw.append([a["name"], v])
+    return {"c": {"cls": cname, "kw": kw}}
+
+
+def has_literal(v):
+    if isinstance(v, dict):
+        if "c" in v:
+            return True
+        return any(has_literal(x) for x in v.get("l", [])) or any(has_literal(x) for _, x in v.get("d", []))
+    return False
+
+
+def materialize(nodes, v):
+    """the value `v` with every configuration literal replaced by a reference to a fresh node appended to `nodes`
+    (a configuration equal to the literal, built explicitly)"""
+    if isinstance(v, dict):
+        if "c" in v:
+            nd = {"cls": v["c"]["cls"], "values": [], "meta": None, "pre": [], "init": [], "task": None}
+            nodes.append(nd)
+            i = len(nodes) - 1
+            nd["values"] = [[k, materialize(nodes, x)] for k, x in v["c"]["kw"]]
+            return {"r": i}
+        if "l" in v:
+            return {"l": [materialize(nodes, x) for x in v["l"]]}
+        if "d" in v:
+            return {"d": [[k, materialize(nodes, x)] for k, x in v["d"]]}
+    return v
+
+
 # --------------------------------------------------------------------- libraries
 
 
-def gen_library(rng, tag, n_classes=None, unamb=False, with_deprecated=False, with_twins=False):
+def gen_library(rng, tag, n_classes=None, unamb=False, with_deprecated=False, with_twins=False, cfg_defaults=False):
     """classes are numbered so that argument types only mention earlier classes (plus
     optional forward references for cycles)"""
     pkg = f"xvlib_{tag}"
@@ -164,7 +227,25 @@ def gen_library(rng, tag, n_classes=None, unamb=False, with_deprecated=False, wi
                     arg["ty"] = gen_ty(rng, cfg_names, [e["name"] for e in enums],
                                        max_dict_depth=1 if unamb else 2)
                 r2 = rng.random()
-                if arg["ty"] != "path" and not (isinstance(arg["ty"], dict) and "cfg" in arg["ty"]) and r2 < 0.35:
+                is_cfg = isinstance(arg["ty"], dict) and "cfg" in arg["ty"]
+                lit = None
+                if cfg_defaults and decl == "param" and r2 < 0.45:
+                    # a configuration-valued default: `x: Param[C] = C(a=1)`, `xs: Param[List[C]] = [C(a=1)]`, `d: Param[Dict[str, C]] = {"k": C()}`
+                    t = arg["ty"]
+                    inner = t if is_cfg else (t.get("list") or t.get("dict")) if isinstance(t, dict) else None
+                    if isinstance(inner, dict) and "cfg" in inner and not inner.get("fwd"):
+                        one = gen_cfg_literal(rng, classes, enums, inner["cfg"])
+                        if one is not None:
+                            if is_cfg:
+                                lit = one
+                            elif "list" in t:
+                                lit = {"l": [one] + ([gen_cfg_literal(rng, classes, enums, inner["cfg"])] if rng.random() < 0.3 else [])}
+                                lit["l"] = [x for x in lit["l"] if x is not None]
+                            else:
+                                lit = {"d": [[rng.choice(KEYS), one]]}
+                if lit is not None:
+                    arg["default"] = lit
+                elif arg["ty"] != "path" and not is_cfg and r2 < 0.35:
                     arg["default"] = gen_plain_default(rng, arg["ty"], {"enums": enums})
                 elif r2 < 0.55:
                     arg["optional"] = True
@@ -206,6 +287,8 @@ def val_src(v):
         return "[" + ", ".join(val_src(x) for x in v["l"]) + "]"
     if "d" in v:
         return "{" + ", ".join(f"{k!r}: {val_src(x)}" for k, x in v["d"]) + "}"
+    if "c" in v:
+        return v["c"]["cls"] + "(" + ", ".join(f"{k}={val_src(x)}" for k, x in v["c"]["kw"]) + ")"
     raise ValueError(v)
 
 
@@ -280,7 +363,25 @@ class GraphGen:
         for a in all_args(self.lib, cname):
             if a["decl"] in ("constant", "pathgen", "factory"):
                 continue
-            if "default" in a and rng.random() < 0.4:
+            if "default" in a and has_literal(a["default"]):
+                r = rng.random()
+                if r < 0.35:
+                    continue                          # left unset: the constructor stores a clone of the default
+                if r < 0.7:
+                    # explicitly a configuration equal to the default (other objects, same content) …
+                    v = materialize(self.nodes, a["default"])
+                    if r >= 0.5:
+                        # … or one scalar away from it
+                        tgt = next((x["r"] for x in ([v] + v.get("l", []) + [y for _, y in v.get("d", [])]) if isinstance(x, dict) and "r" in x), None)
+                        if tgt is not None:
+                            tn = self.nodes[tgt]
+                            sc = [aa for aa in all_args(self.lib, tn["cls"]) if aa["decl"] == "param" and aa["ty"] in ("int", "str", "bool", "float")]
+                            if sc:
+                                aa = rng.choice(sc)
+                                tn["values"] = [kv for kv in tn["values"] if kv[0] != aa["name"]] + [[aa["name"], gen_scalar(rng, aa["ty"], self.lib)]]
+                    node["values"].append([a["name"], v])
+                    continue
+            elif "default" in a and rng.random() < 0.4:
                 if rng.random() < 0.5:
                     node["values"].append([a["name"], a["default"]])  # explicitly the default
                 continue
